@@ -149,7 +149,12 @@ pub fn gen_case(seed: u64, idx: usize, acc: &mut Acc) -> Case {
         let e1: &str = EXTS[rng.below(EXTS.len())];
         let e2: &str = EXTS[rng.below(EXTS.len())];
         let e1c = random_case(e1, &mut rng);
-        let ext = match rng.below(10) {
+        let ext = match rng.below(11) {
+            10 => {
+                // a format's one-letter option alias is NOT a recognised extension: content decides
+                acc.count("extension_is_a_one_letter_alias");
+                format!(".{}", rng.pick(&["j", "m", "t", "y", "J", "Y"]))
+            }
             0 => String::new(),
             1 => ".txt".into(),
             2 => format!(".tar.{e1c}"),
@@ -321,9 +326,9 @@ pub fn run(ctx: &Ctx) -> i32 {
         judge(&case, acc);
     });
     strace_sample(&mut acc);
-    let rule = format!("{} invocations: -f absent or each format x 1-3 inputs, each a regular file / FIFO / '-' (also twice; standard input a pipe, or a regular file at offset 0 or past earlier bytes; one run in five delivers pipe and FIFO content in bursts with pauses) / directory / missing file / (one in 40) a procfs file, which is regular, reports size 0 and cannot be mapped, named with every extension in random letter case, multi-dot, none or misleading, holding content of each format (1-3 generated documents), content valid in several formats, large documents with long multi-line strings (tens of KiB of output), or invalid content, x all targets; one invocation in 60 names 25-40 FIFOs holding plain valid documents and runs under a limit of 20 open descriptors (each input is opened at its turn and closed when done); expected stdout and exit status computed by the library in the matching supply mode; distinct non-trivial = distinct invocations", n);
+    let rule = format!("{} invocations: -f absent or each format x 1-3 inputs, each a regular file / FIFO / '-' (also twice; standard input a pipe, or a regular file at offset 0 or past earlier bytes; one run in five delivers pipe and FIFO content in bursts with pauses) / directory / missing file / (one in 40) a procfs file, which is regular, reports size 0 and cannot be mapped, named with every extension in random letter case, multi-dot, none, misleading or a one-letter format alias (which is no extension), holding content of each format (1-3 generated documents), content valid in several formats, large documents with long multi-line strings (tens of KiB of output), or invalid content, x all targets; one invocation in 60 names 25-40 FIFOs holding plain valid documents and runs under a limit of 20 open descriptors (each input is opened at its turn and closed when done); expected stdout and exit status computed by the library in the matching supply mode; distinct non-trivial = distinct invocations", n);
     ev::finish(
-        Finish { ctx, level: "exploration", rule, assumptions: vec!["document-less YAML regular files are kept out (recorded C02 finding)".into(), "strace counters are evidence that both supply modes were really observed, not an oracle".into()], extra: serde_json::Map::new(), exhaustive: false, min_distinct: 1000, must_reach: vec![("input_kind_fifo".into(), 200), ("input_kind_stdin".into(), 200), ("input_kind_regular".into(), 1000), ("extension_with_upper_case".into(), 500), ("extension_kind_multi_dot".into(), 200), ("stdin_named_twice".into(), 20), ("resolved_detect_slice".into(), 100), ("resolved_detect_reader".into(), 100), ("stdin_is_regular_file_at_later_offset".into(), 100), ("stdin_is_regular_file_at_offset_0".into(), 50), ("stdin_delivered_in_bursts".into(), 50), ("fifo_delivered_in_bursts".into(), 50), ("content_zero_length".into(), 100), ("input_names_not_utf8".into(), 100), ("content_large_multiline_content".into(), 100), ("input_kind_procfs".into(), 50), ("invocations_with_dozens_of_fifos".into(), 30)] },
+        Finish { ctx, level: "exploration", rule, assumptions: vec!["document-less YAML regular files are kept out (recorded C02 finding)".into(), "strace counters are evidence that both supply modes were really observed, not an oracle".into()], extra: serde_json::Map::new(), exhaustive: false, min_distinct: 1000, must_reach: vec![("input_kind_fifo".into(), 200), ("input_kind_stdin".into(), 200), ("input_kind_regular".into(), 1000), ("extension_with_upper_case".into(), 500), ("extension_kind_multi_dot".into(), 200), ("stdin_named_twice".into(), 20), ("resolved_detect_slice".into(), 100), ("resolved_detect_reader".into(), 100), ("stdin_is_regular_file_at_later_offset".into(), 100), ("stdin_is_regular_file_at_offset_0".into(), 50), ("stdin_delivered_in_bursts".into(), 50), ("fifo_delivered_in_bursts".into(), 50), ("content_zero_length".into(), 100), ("input_names_not_utf8".into(), 100), ("content_large_multiline_content".into(), 100), ("input_kind_procfs".into(), 50), ("invocations_with_dozens_of_fifos".into(), 30), ("extension_is_a_one_letter_alias".into(), 100)] },
         acc,
     )
 }
